@@ -36,9 +36,26 @@ static std::vector<float> permutation(long n, vt::Rng& g) {
   return v;
 }
 
+// depth-2 merge tree with strongly mixed k: A gets 5 %, B 5 %, C 90 % of the stream; B.merge(C); A.merge(B)
+template<class Sk, class MkK> static Sk build_tree(const std::vector<float>& v, const int* ks, MkK mk) {
+  Sk a = mk(ks[0]), b = mk(ks[1]), c = mk(ks[2]);
+  const size_t n = v.size();
+  for (size_t i = 0; i < n; i++) { if (i < n / 20) a.update(v[i]); else if (i < n / 10) b.update(v[i]); else c.update(v[i]); }
+  b.merge(c); a.merge(b);
+  return a;
+}
+template<class Sk> static void eps_report(const char* fam, const char* group, int k, long n, const Sk& s);
 template<class Sk, class Mk> static void eps_trial(const char* fam, int k, long n, bool merged, vt::Rng& g, Mk mk) {
   std::vector<float> v = permutation(n, g);
   Sk s = build<Sk>(v, merged, mk);
+  eps_report(fam, "flat", k, n, s);
+}
+template<class Sk, class MkK> static void eps_tree_trial(const char* fam, const int* ks, long n, vt::Rng& g, MkK mk) {
+  std::vector<float> v = permutation(n, g);
+  Sk s = build_tree<Sk>(v, ks, mk);
+  eps_report(fam, "tree", ks[0] * 1000000 + ks[1] * 1000 + ks[2], n, s);
+}
+template<class Sk> static void eps_report(const char* fam, const char* group, int k, long n, const Sk& s) {
   std::vector<long long> errs;
   for (int j = 0; j < 100; j++) {
     long q = (long)(((double)j + 0.5) * (double)n / 100.0);
@@ -48,13 +65,15 @@ template<class Sk, class Mk> static void eps_trial(const char* fam, int k, long 
   std::vector<float> sp; for (int j = 1; j < 10; j++) sp.push_back((float)(n * j / 10));
   auto pmf = s.get_PMF(sp.data(), (uint32_t)sp.size(), false);   // exclusive: bin j = [sp[j-1], sp[j])
   double worst = 0; for (size_t b = 0; b < pmf.size(); b++) worst = std::max(worst, std::fabs(pmf[b] - 0.1));
-  Ev("Trial").str("fam", fam).str("kind", "eps").i("k", k).i("n", n).b("merged", merged).i("sn", (long long)s.get_n())
+  Ev("Trial").str("fam", fam).str("kind", "eps").str("group", group).i("k", k).i("n", n).i("sn", (long long)s.get_n())
     .i("eps", ppm(s.get_normalized_rank_error(false))).i("epspmf", ppm(s.get_normalized_rank_error(true))).il("errs", errs).i("pmferr", ppm(worst)).emit();
 }
-static void req_trial(int k, bool hra, long n, bool merged, vt::Rng& g) {
+static void req_trial(const int* ks, bool hra, long n, int shape, vt::Rng& g) {   // shape 0: one sketch, 1: 8-way merge, 2: depth-2 tree
   typedef req_sketch<float> R;
   std::vector<float> v = permutation(n, g);
-  R s = build<R>(v, merged, [=]() { return R((uint16_t)k, hra); });
+  const int k = ks[0];
+  R s = shape == 2 ? build_tree<R>(v, ks, [=](int kk) { return R((uint16_t)kk, hra); })
+                   : build<R>(v, shape == 1, [=]() { return R((uint16_t)k, hra); });
   std::vector<long long> tr, lb[3], ub[3];
   for (int j = 0; j < 100; j++) {
     // query points crowd the accurate end: true ranks 1 - 2^-(j/6) (HRA) or 2^-(j/6) (LRA) and evenly spaced ones
@@ -65,8 +84,31 @@ static void req_trial(int k, bool hra, long n, bool merged, vt::Rng& g) {
     tr.push_back(ppm(truth));
     for (int sd = 1; sd <= 3; sd++) { lb[sd - 1].push_back(ppm(s.get_rank_lower_bound(est, (uint8_t)sd))); ub[sd - 1].push_back(ppm(s.get_rank_upper_bound(est, (uint8_t)sd))); }
   }
-  Ev("Trial").str("fam", "req").str("kind", "bounds").i("k", k).b("hra", hra).i("n", n).b("merged", merged).i("sn", (long long)s.get_n())
+  Ev("Trial").str("fam", "req").str("kind", "bounds").str("group", shape == 2 ? "tree" : "flat").i("k", k).b("hra", hra).i("n", n).i("sn", (long long)s.get_n())
     .il("truth", tr).il("lb1", lb[0]).il("ub1", ub[0]).il("lb2", lb[1]).il("ub2", ub[1]).il("lb3", lb[2]).il("ub3", ub[2]).emit();
+}
+
+// unbiasedness of the classic down-sampling merge (its offset comes from random_utils::rand, not from the coin): both sketches
+// in estimation mode, k ratio 2 / 4 / 8, three populated source levels; signed rank error (units of 1e-3) at 9 ranks
+static void bias_trial(int ratio, long t, vt::Rng& g) {
+  typedef quantiles_sketch<float> Q;
+  const int kt = 8, ks = kt * ratio; const long nt = 6 * kt, ns = 14 * ks, n = nt + ns;
+  std::vector<float> v = permutation(n, g);
+  random_utils::override_seed(g.next());
+  Q small((uint16_t)kt), large((uint16_t)ks);
+  for (long i = 0; i < nt; i++) small.update(v[i]);
+  for (long i = nt; i < n; i++) large.update(v[i]);
+  const bool dir = t % 2 == 0;
+  if (dir) small.merge(large); else large.merge(small);
+  const Q& s = dir ? small : large;
+  std::vector<long long> errs;
+  for (int j = 1; j <= 9; j++) {
+    long q = n * j / 10;
+    errs.push_back(llround((s.get_rank((float)q, true) - (double)(q + 1) / (double)n) * 1000.0));
+  }
+  char grp[16]; snprintf(grp, sizeof grp, "ds%d", ratio);
+  Ev("Trial").str("fam", "classic").str("kind", "bias").str("group", grp).i("k", s.get_k()).i("n", n).i("sn", (long long)s.get_n())
+    .b("bothest", true).il("errs", errs).emit();
 }
 
 int main(int argc, char** argv) {
@@ -79,13 +121,28 @@ int main(int argc, char** argv) {
   random_utils::random_bit.source = &coin_next; random_utils::random_bit.context = &g_coin; g_coin.x = seed * 77 + 5;
   random_utils::override_seed(seed);
   vt::Rng g(seed);
-  static const char* FAMS[] = {"kll", "classic", "req"};
+  static const char* FAMS[] = {"kll", "classic", "req", "classic-downsampling"};
   Ev("Begin").str("fam", FAMS[fam]).i("trials", trials).i("n", n).emit();
+  // depth-2 trees with strongly mixed k, all three positions of the small k (A.merge(B.merge(C)))
+  static const int KLL_T[3][3] = {{200, 200, 16}, {200, 16, 200}, {16, 200, 200}};
+  static const int CLQ_T[3][3] = {{128, 128, 16}, {128, 16, 128}, {16, 128, 128}};
+  // REQ does not publish a k-dependent state after merging (its bounds use its own k): trees only with the small k on top
+  static const int REQ_T[3][3] = {{12, 24, 24}, {12, 12, 24}, {12, 24, 12}};
   for (long t = 0; t < trials; t++) {
+    if (fam == 3) { bias_trial(t % 3 == 0 ? 2 : t % 3 == 1 ? 4 : 8, t / 3, g); continue; }
+    const bool tree = t % 3 == 2;            // every third trial is a tree
     const bool merged = t % 2 == 1;
-    if (fam == 0) { int k = t % 4 < 2 ? 200 : 100; eps_trial<kll_sketch<float>>("kll", k, n, merged, g, [=]() { return kll_sketch<float>((uint16_t)k); }); }
-    else if (fam == 1) { int k = t % 4 < 2 ? 128 : 64; eps_trial<quantiles_sketch<float>>("classic", k, n, merged, g, [=]() { return quantiles_sketch<float>((uint16_t)k); }); }
-    else req_trial(t % 4 < 2 ? 12 : 24, (t / 4) % 2 == 0, n, merged, g);
+    if (fam == 0) {
+      if (tree) eps_tree_trial<kll_sketch<float>>("kll", KLL_T[(t / 3) % 3], n, g, [](int kk) { return kll_sketch<float>((uint16_t)kk); });
+      else { int k = t % 4 < 2 ? 200 : 100; eps_trial<kll_sketch<float>>("kll", k, n, merged, g, [=]() { return kll_sketch<float>((uint16_t)k); }); }
+    } else if (fam == 1) {
+      if (tree) eps_tree_trial<quantiles_sketch<float>>("classic", CLQ_T[(t / 3) % 3], n, g, [](int kk) { return quantiles_sketch<float>((uint16_t)kk); });
+      else { int k = t % 4 < 2 ? 128 : 64; eps_trial<quantiles_sketch<float>>("classic", k, n, merged, g, [=]() { return quantiles_sketch<float>((uint16_t)k); }); }
+    } else {
+      const int flat[3] = {t % 4 < 2 ? 12 : 24, 0, 0};
+      if (tree) req_trial(REQ_T[(t / 3) % 3], (t / 6) % 2 == 0, n, 2, g);
+      else req_trial(flat, (t / 4) % 2 == 0, n, merged ? 1 : 0, g);
+    }
   }
   Ev("Verdict").i("trials", trials).emit();
   vt::close_out();
